@@ -819,3 +819,103 @@ def demonic_perm(M, items):
     return out + items
 @model_re(r'^HashSet::iter$')
 def _(M, a, c): return Native('HashIter', items=demonic_perm(M, [Ref(e, 0) for e in sorted_items(V(a[0]).d['m'])]))
+
+# ---- integer method families (the neighbours of what the crate uses today, so that an edit to e.g. wrapping_/saturating_ stays decidable)
+def _int_args(a):
+    return deref_all(a[0]), (deref_all(a[1]) if len(a) > 1 else None)
+def _minmax(x):
+    w, s = x.w, x.s
+    return (Int(w, s, -(1 << (w - 1)) if s else 0), Int(w, s, (1 << (w - 1)) - 1 if s else (1 << w) - 1))
+def _ite(M, c, t, e):
+    if isinstance(c, bool): return t if c else e
+    return Int(t.w, t.s, z3.If(c, t.z(), e.z()))
+def _divrem_bad(M, x, y):
+    zero = M.binop('Eq', y, Int(y.w, y.s, 0))
+    if not x.s: return zero, False
+    mn, _ = _minmax(x)
+    return zero, band(M.binop('Eq', x, mn), M.binop('Eq', y, Int(y.w, y.s, -1)))
+@model_re(r'^core::num::<impl [iu](8|16|32|64|128|size)>::(checked|wrapping|saturating|overflowing|unchecked|strict)_(add|sub|mul|div|rem)$')
+def _(M, a, c):
+    m = re.search(r'::(checked|wrapping|saturating|overflowing|unchecked|strict)_(add|sub|mul|div|rem)$', norm_name(c)); mode, opn = m.group(1), m.group(2)
+    x, y = _int_args(a)
+    mn, mx = _minmax(x)
+    if opn in ('div', 'rem'):
+        zero, ovf = _divrem_bad(M, x, y)
+        if M.branch(zero):
+            if mode == 'checked': return NONE()
+            raise Panic("attempt to %s" % ('divide by zero' if opn == 'div' else 'calculate the remainder with a divisor of zero'))
+        if M.branch(ovf):
+            if mode == 'checked': return NONE()
+            if mode == 'wrapping': return mn if opn == 'div' else Int(x.w, x.s, 0)
+            if mode == 'saturating': return mx if opn == 'div' else Int(x.w, x.s, 0)
+            if mode == 'overflowing': return Agg('tuple', 0, [mn if opn == 'div' else Int(x.w, x.s, 0), True])
+            raise Panic("attempt to %s with overflow" % ('divide' if opn == 'div' else 'calculate the remainder'))
+        r = M.binop('Div' if opn == 'div' else 'Rem', x, y)
+        if mode == 'checked': return some(r)
+        if mode == 'overflowing': return Agg('tuple', 0, [r, False])
+        return r
+    t = M.binop({'add': 'AddWithOverflow', 'sub': 'SubWithOverflow', 'mul': 'MulWithOverflow'}[opn], x, y)
+    r, o = t.fields
+    if mode == 'wrapping': return r
+    if mode == 'overflowing': return t
+    if mode == 'checked':
+        return NONE() if M.branch(o) else some(r)
+    if mode in ('unchecked', 'strict'):
+        if M.branch(o): raise Panic("attempt to %s with overflow" % opn)
+        return r
+    # saturating
+    if not M.branch(o): return r
+    if not x.s: return mx if opn != 'sub' else mn
+    if opn == 'add': neg = M.binop('Lt', x, Int(x.w, x.s, 0))
+    elif opn == 'sub': neg = M.binop('Lt', x, Int(x.w, x.s, 0))
+    else: neg = bnot(beq(M.binop('Lt', x, Int(x.w, x.s, 0)), M.binop('Lt', y, Int(y.w, y.s, 0))))
+    return mn if M.branch(neg) else mx
+@model_re(r'^core::num::<impl i(8|16|32|64|128|size)>::(rem_euclid|div_euclid|abs|wrapping_abs|checked_abs|wrapping_neg|checked_neg|signum)$')
+def _(M, a, c):
+    fn = norm_name(c).split('::')[-1]
+    x, y = _int_args(a); mn, mx = _minmax(x); zero0 = Int(x.w, x.s, 0)
+    if fn in ('rem_euclid', 'div_euclid'):
+        zero, ovf = _divrem_bad(M, x, y)
+        if M.branch(zero): raise Panic("attempt to divide by zero (euclid)")
+        if M.branch(ovf): raise Panic("attempt to divide with overflow (euclid)")
+        q = M.binop('Div', x, y); r = M.binop('Rem', x, y)
+        if not M.branch(M.binop('Lt', r, zero0)): return r if fn == 'rem_euclid' else q
+        ypos = M.branch(M.binop('Gt', y, zero0))
+        if fn == 'rem_euclid': return M.binop('Add', r, y) if ypos else M.binop('Sub', r, y)
+        return M.binop('Sub', q, Int(x.w, x.s, 1)) if ypos else M.binop('Add', q, Int(x.w, x.s, 1))
+    ismin = M.binop('Eq', x, mn)
+    if fn in ('abs', 'wrapping_abs', 'checked_abs'):
+        if M.branch(ismin):
+            if fn == 'abs': raise Panic("attempt to negate with overflow")
+            return mn if fn == 'wrapping_abs' else NONE()
+        r = Int(x.w, x.s, -x.v) if M.branch(M.binop('Lt', x, zero0)) else x
+        return some(r) if fn == 'checked_abs' else r
+    if fn in ('wrapping_neg', 'checked_neg'):
+        if M.branch(ismin): return mn if fn == 'wrapping_neg' else NONE()
+        r = Int(x.w, x.s, -x.v); return r if fn == 'wrapping_neg' else some(r)
+    if fn == 'signum':
+        if M.branch(M.binop('Lt', x, zero0)): return Int(x.w, x.s, -1)
+        return zero0 if M.branch(M.binop('Eq', x, zero0)) else Int(x.w, x.s, 1)
+    raise Unsupported(fn)
+@model_re(r'^<&?[iu](8|16|32|64|size) as (Add|Sub|Mul|Div|Rem)(<&?[iu](8|16|32|64|size)>)?>::(add|sub|mul|div|rem)$')
+def _(M, a, c):
+    opn = norm_name(c).split('::')[-1]
+    x, y = _int_args(a)
+    if opn in ('div', 'rem'):
+        zero, ovf = _divrem_bad(M, x, y)
+        if M.branch(zero): raise Panic("attempt to %s" % ('divide by zero' if opn == 'div' else 'calculate the remainder with a divisor of zero'))
+        if M.branch(ovf): raise Panic("attempt to %s with overflow" % ('divide' if opn == 'div' else 'calculate the remainder'))
+        return M.binop('Div' if opn == 'div' else 'Rem', x, y)
+    t = M.binop({'add': 'AddWithOverflow', 'sub': 'SubWithOverflow', 'mul': 'MulWithOverflow'}[opn], x, y)
+    if M.branch(t.fields[1]): raise Panic("attempt to %s with overflow" % {'add': 'add', 'sub': 'subtract', 'mul': 'multiply'}[opn])
+    return t.fields[0]
+@model_re(r'^<&?[iu](8|16|32|64|size) as Partial(Ord|Eq)(<&?[iu](8|16|32|64|size)>)?>::(lt|le|gt|ge|eq|ne)$')
+def _(M, a, c):
+    op = {'lt': 'Lt', 'le': 'Le', 'gt': 'Gt', 'ge': 'Ge', 'eq': 'Eq', 'ne': 'Ne'}[norm_name(c).split('::')[-1]]
+    return M.binop(op, deref_all(a[0]), deref_all(a[1]))
+@model_re(r'^<[iu](8|16|32|64|size) as Ord>::(max|min)$|^std::cmp::(max|min)$')
+def _(M, a, c):
+    fn = norm_name(c).split('::')[-1]; x, y = deref_all(a[0]), deref_all(a[1])
+    if not isinstance(x, Int): raise Unsupported("min/max of non-integers")
+    ge = M.branch(M.binop('Ge', x, y))
+    return (x if ge else y) if fn == 'max' else (y if ge else x)
